@@ -18,7 +18,8 @@ RULE = ("one evaluation = one (w,d) point of a solver call, one (k,d) point of a
 ASSUMPTIONS = ["floating point rounding is not modelled: model and implementation are compared at 1e-9 relative, "
                "calls whose convergence test is decided within 1e-9 of the tolerance are skipped and counted",
                "convergence within 10 Newton steps is validated by execution (one-parameter family scan), not proved",
-               "numba compiles lineardispersion.py faithfully"]
+               "numba compiles lineardispersion.py faithfully",
+               "the element-wise translator harness/translate_pointwise.py (Python AST -> Coq text over R, fail-closed) is trusted to map each accepted construct to its meaning: wavetheory/lineardispersion.py -> Generated/DispersionSrc.v (finite depth only; the loop schema of Proofs/DispersionGen.v is hand-written)"]
 
 SRC_FUNCS = ["intrinsic_dispersion_relation", "phase_velocity", "ratio_group_velocity_to_phase_velocity",
              "intrinsic_group_velocity", "jacobian_wavenumber_to_radial_frequency",
